@@ -126,6 +126,11 @@ def context_chain_grammar(rng):
     k = rng.randrange(2, 5)
     tails = ["t%d" % i for i in range(k)]
     terms = [("a", 97)] + [(t, 110 + i) for i, t in enumerate(tails)]
+    if rng.random() < 0.4:
+        # two alternatives with the same right context: an ambiguity that exists only if both chains survive
+        i, j = rng.sample(range(k), 2)
+        tails[j] = tails[i]
+        terms = [("a", 97)] + [(t, 110 + int(t[1:])) for t in sorted(set(tails))]
     rules = []
     order = list(range(k))
     rng.shuffle(order)
@@ -173,11 +178,14 @@ def item_list_grammar(rng):
     else:
         rules += [Rule("L", ["L", "I"], "l", 1, [0, 1]), Rule("L", ["I"], None, 0, [0])]
     used = set()
+    main = rng.choice(["X", "X", "Y", "B"])      # most kinds share this body and differ in what follows it
     for i, l in enumerate(leads):
         nalt = 2 if rng.random() < 0.5 else 1
         r0 = rng.random()
         if nalt == 2 and r0 < 0.45:
             bodies = ["X", "Y"]                  # the same strings directly and through the unit rule Y : X
+        elif nalt == 1 and r0 < 0.6:
+            bodies = [main]
         elif r0 < 0.8:
             bodies = rng.sample(["X", "Y", "B"], nalt)
         else:
